@@ -67,6 +67,13 @@ def check(rep, tier, seed, replay):
             lines.append(f"treehash {a}")
         for t in range(1, 17):
             hash_threads.append((a, f"treethreadshash {t} {a}"))
+    # 5x2 by sub-tree (the only size within the quantifier on which availability has to grow twice):
+    # two seeded second instructions per run, compared with the model task by task
+    sub_lines = []
+    for h in (0, 1):
+        for i in rng.sample(range(12), 1 if tier != "thorough" else 4):
+            sub_lines.append(f"treehashtask 5 2 {h} {2 if tier != 'thorough' else 3} {i}")
+    lines += sub_lines
     all_lines = lines + th_lines
     impl = core.run_harness(all_lines, seq=True)       # one case at a time: each case uses the whole pool itself
     model = core.run_driver(all_lines)
@@ -120,7 +127,7 @@ def check(rep, tier, seed, replay):
     rep.add_counts(len(all_lines), len(distinct))
     rep.cov["rule"] = ("build_tree of the real code through wrappers::tree_progs (collecting harvester) for table sizes 2x2, 3x2, 2x3 (both halt flags, step limits from "
                        "{1,2,3,5,8,13,25,99,300} and a random one), 4x2 and 2x4 (listed for small limits, order-independent hash of the emitted texts beyond), 3x3"
-                       + (", 5x2 at limit 2" if tier == "thorough" else "") + " (hash), plus degenerate sizes; compared with the Lean model as sorted list, count/distinct, "
+                       + (", 5x2 at limit 2" if tier == "thorough" else "") + " (hash), 5x2 at limit 2 by sub-tree (the programs under a seeded second instruction per halt flag, hash), plus degenerate sizes; compared with the Lean model as sorted list, count/distinct, "
                        "single-thread emission order and hash; the sorted list is also compared with an independently written sequential reference enumerator "
                        "(vlib/treeref.py: cell-level tape, availability recomputed from the table) and the run is repeated under rayon pools of 1,2,3,5,8,16 threads. "
                        "Distinct non-trivial = distinct (configuration, program) pairs (first 50 per configuration) of configurations whose emitted set equals the reference.")
